@@ -160,6 +160,99 @@ func c13Run(kind int, pool []ap.Item, ops []c13Op) (tr c13Trace) {
 	return tr
 }
 
+// one correspondence case: container, history, final Collection() and the trace
+func c13Term(kind int, ops []c13Op, tr c13Trace) string {
+	parts := make([]string, len(ops))
+	for i, o := range ops {
+		parts[i] = o.coq()
+	}
+	fin := make([]string, len(tr.final))
+	for i, it := range tr.final {
+		fin[i] = CoqItem(it)
+	}
+	return "(" + c13Containers[kind] + ", [" + strings.Join(parts, "; ") + "], ([" + strings.Join(fin, "; ") + "], [" + strings.Join(tr.outs, "; ") + "]))"
+}
+
+// expected member as the container shows it
+func c13Shown(kind int, it ap.Item) string {
+	if kind == 1 {
+		return CoqItem(it.GetLink())
+	}
+	return CoqItem(it)
+}
+
+// native evaluation of one history over the pool cur against an insertion-ordered set of indices
+func c13Check(rep *Report, kind int, cur []ap.Item, ops []c13Op, idx int) c13Trace {
+	shown := c13Shown
+	tr := c13Run(kind, cur, ops)
+	rep.Evaluations++
+	fail := func(step int, want, got string) {
+		rep.Violate(Violation{Op: c13Labels[kind] + " history", Input: fmt.Sprint(ops[:step+1]), Expected: want, Observed: got, Index: idx})
+	}
+	if tr.panic != "" {
+		fail(len(ops)-1, "no panic", "panic: "+tr.panic)
+		return tr
+	}
+	// replay step by step on a fresh container to compare after each step
+	b := c13New(kind)
+	var set []int
+	member := func(i int) bool {
+		for _, j := range set {
+			if j == i {
+				return true
+			}
+		}
+		return false
+	}
+	for k, o := range ops {
+		x := cur[o.idx]
+		switch o.kind {
+		case 0:
+			if !member(o.idx) {
+				set = append(set, o.idx)
+			}
+			b.app(x)
+			if !b.has(x) {
+				fail(k, "an appended item is contained", "Contains = false")
+			}
+		case 1:
+			if kind != 1 { // an IRI list has no Remove; its item view is a copy
+				out := set[:0:0]
+				for _, j := range set {
+					if j != o.idx {
+						out = append(out, j)
+					}
+				}
+				set = out
+			}
+			b.rem(x)
+			if kind != 1 && b.has(x) {
+				fail(k, "a removed item is not contained", "Contains = true")
+			}
+		default:
+			if got := b.has(x); got != member(o.idx) {
+				fail(k, fmt.Sprintf("Contains = %v", member(o.idx)), fmt.Sprintf("Contains = %v", got))
+			}
+		}
+		if int(b.count()) != len(set) {
+			fail(k, fmt.Sprintf("Count = %d", len(set)), fmt.Sprintf("Count = %d", b.count()))
+		}
+		view := b.view()
+		want := make([]string, len(set))
+		for i, j := range set {
+			want[i] = shown(kind, cur[j])
+		}
+		got := make([]string, len(view))
+		for i, it := range view {
+			got[i] = CoqItem(it)
+		}
+		if strings.Join(want, ";") != strings.Join(got, ";") {
+			fail(k, "members in first-insertion order: "+fmt.Sprint(set), strings.Join(got, ";"))
+		}
+	}
+	return tr
+}
+
 func runC13(seed int64, n int, tier string, outDir string) (*Report, error) {
 	rep := &Report{Rule: "histories of Append/Remove/Contains over a pool of 5 items of pairwise distinct identity (IRI, *Object, *Actor, *Activity, Object value) on the six containers (the four collection types a second time with Remove going through OnItemCollection): natively exhaustive up to a length bound (3 quick, 4 thorough) and random up to length 40; a sample of them plus histories over an odd pool (equivalent ids, link, id-less object, nested list) go through Coq; non-trivial = history holds an Append and a Remove or Contains; distinct by container and history"}
 	g := NewGen(seed, "C13")
@@ -171,105 +264,22 @@ func runC13(seed int64, n int, tier string, outDir string) (*Report, error) {
 		}
 		return "Definition pool : list item := [" + strings.Join(parts, ";\n  ") + "].\n"
 	}
+	// (b47) both instances of the model: c_run (plain URL grammar) and c_run_u (wide library models)
 	okDef := "Definition ok (c : container * list cop * (list item * list (nat * option bool))) : bool :=\n" +
-		"  let '(k, ops, (fin, outs)) := c in let '(fin', outs') := c_run pool k [] ops in\n" +
-		"  list_eqb item_eqb fin fin' && list_eqb (pair_eqb Nat.eqb (option_eqb Bool.eqb)) outs outs'.\n"
-	hdr := "From AP.Model Require Import Prelude Vocab Pred Equal Coll.\n"
+		"  let '(k, ops, (fin, outs)) := c in let '(fin', outs') := c_run pool k [] ops in let '(finu, outsu) := c_run_u pool k [] ops in\n" +
+		"  list_eqb item_eqb fin fin' && list_eqb (pair_eqb Nat.eqb (option_eqb Bool.eqb)) outs outs' &&\n" +
+		"  list_eqb item_eqb fin finu && list_eqb (pair_eqb Nat.eqb (option_eqb Bool.eqb)) outs outsu.\n"
+	hdr := "From AP.Model Require Import Prelude Vocab Pred IriEq IriEqU Equal EqualU Coll CollU.\n"
 	elem := "container * list cop * (list item * list (nat * option bool))"
 	cw := NewCaseWriter(outDir, "Cases_C13_set", hdr+poolDef(pool)+okDef, elem)
 	cwOdd := NewCaseWriter(outDir, "Cases_C13_odd", hdr+poolDef(odd)+okDef, elem)
 
-	term := func(kind int, ops []c13Op, tr c13Trace) string {
-		parts := make([]string, len(ops))
-		for i, o := range ops {
-			parts[i] = o.coq()
-		}
-		fin := make([]string, len(tr.final))
-		for i, it := range tr.final {
-			fin[i] = CoqItem(it)
-		}
-		return "(" + c13Containers[kind] + ", [" + strings.Join(parts, "; ") + "], ([" + strings.Join(fin, "; ") + "], [" + strings.Join(tr.outs, "; ") + "]))"
-	}
+	term := c13Term
 
-	// expected member as the container shows it
-	shown := func(kind int, it ap.Item) string {
-		if kind == 1 {
-			return CoqItem(it.GetLink())
-		}
-		return CoqItem(it)
-	}
+	shown := c13Shown
 	idx := 0
-	// native evaluation of one history against an insertion-ordered set of indices
 	cur := pool // the pool the native evaluation runs over
-	check := func(kind int, ops []c13Op) c13Trace {
-		tr := c13Run(kind, cur, ops)
-		rep.Evaluations++
-		fail := func(step int, want, got string) {
-			rep.Violate(Violation{Op: c13Labels[kind] + " history", Input: fmt.Sprint(ops[:step+1]), Expected: want, Observed: got, Index: idx})
-		}
-		if tr.panic != "" {
-			fail(len(ops)-1, "no panic", "panic: "+tr.panic)
-			return tr
-		}
-		// replay step by step on a fresh container to compare after each step
-		b := c13New(kind)
-		var set []int
-		member := func(i int) bool {
-			for _, j := range set {
-				if j == i {
-					return true
-				}
-			}
-			return false
-		}
-		for k, o := range ops {
-			x := cur[o.idx]
-			switch o.kind {
-			case 0:
-				if !member(o.idx) {
-					set = append(set, o.idx)
-				}
-				b.app(x)
-				if !b.has(x) {
-					fail(k, "an appended item is contained", "Contains = false")
-				}
-			case 1:
-				if kind != 1 { // an IRI list has no Remove; its item view is a copy
-					out := set[:0:0]
-					for _, j := range set {
-						if j != o.idx {
-							out = append(out, j)
-						}
-					}
-					set = out
-				}
-				b.rem(x)
-				if kind != 1 && b.has(x) {
-					fail(k, "a removed item is not contained", "Contains = true")
-				}
-			default:
-				if got := b.has(x); got != member(o.idx) {
-					fail(k, fmt.Sprintf("Contains = %v", member(o.idx)), fmt.Sprintf("Contains = %v", got))
-				}
-			}
-			if int(b.count()) != len(set) {
-				fail(k, fmt.Sprintf("Count = %d", len(set)), fmt.Sprintf("Count = %d", b.count()))
-			}
-			view := b.view()
-			want := make([]string, len(set))
-			for i, j := range set {
-				want[i] = shown(kind, cur[j])
-			}
-			got := make([]string, len(view))
-			for i, it := range view {
-				got[i] = CoqItem(it)
-			}
-			if strings.Join(want, ";") != strings.Join(got, ";") {
-				fail(k, "members in first-insertion order: "+fmt.Sprint(set), strings.Join(got, ";"))
-			}
-		}
-		return tr
-	}
+	check := func(kind int, ops []c13Op) c13Trace { return c13Check(rep, kind, cur, ops, idx) }
 	nontrivial := func(ops []c13Op) bool {
 		a, r := false, false
 		for _, o := range ops {
